@@ -557,4 +557,5 @@ MUTATIONS += [
     dict(id="w8-c20h", patch="seeded/C20h/patch.diff", expect={'C20': ['R14c:']}, allow_others=True),
     dict(id="q-r6g-generator-with-finally", quiet=True, patch="seeded/C18f/patch.diff", edits=[("cirkit/pipeline.py", "            token = _PIPELINE_CONTEXT.set(self)\n            yield\n            _PIPELINE_CONTEXT.reset(token)", "            token = _PIPELINE_CONTEXT.set(self)\n            try:\n                yield\n            finally:\n                _PIPELINE_CONTEXT.reset(token)")], expect={}, allow_analysis_error=True),
     dict(id="q-r13h-lookup-along-ordering", quiet=True, patch="seeded/C20g/patch.diff", edits=[("cirkit/templates/pgms.py", "    input_sls = [sl for _, sl in sorted(zip(ordering, input_sls), key=lambda t: t[0])]", "    input_sls = [input_sls[v] for v in ordering]")], expect={}, allow_analysis_error=True),
+    dict(id="r9n-new-refusal-next-to-known-one", file="cirkit/templates/region_graph/graph.py", old="            num_units = num_sum_units if self.region_outputs(rgn) else num_classes\n            kronecker = KroneckerLayer(", new="            if len(rgn_partitioning) > 2:\n                raise ValueError(\"Cannot build a Tucker layer with more than two inputs\")\n            num_units = num_sum_units if self.region_outputs(rgn) else num_classes\n            kronecker = KroneckerLayer(", expect={"C16": ["R9n:cirkit.templates.region_graph.graph.RegionGraph.build_circuit:refuses:build_tucker_:len(rgn_partitioning) > 2"]}),
 ]
